@@ -102,6 +102,7 @@ def run_queue_case(case, watchdog_s=20.0):
         raise InjectedError(f'p{p}@{i}')
       log.append(('produce', p, i))
       state['produced'] += 1
+      core.ACTIVE.yield_point('user-gen')
       yield (p, i)
     if fault and fault['p'] == p and fault['at'] == n:
       log.append(('fail', p, n))
